@@ -2,7 +2,7 @@ import Qv.Proofs.PcboRest
 /-!
 # C02: `add_constraint_ne_zero`
 -/
-namespace Qv
+namespace Qv.PcboP
 
 /-! ## the slack loop of `add_constraint_ne_zero` -/
 
@@ -164,4 +164,4 @@ theorem addNeZero_book (st : St) (P : Poly) (lam : Rat) (lt : Bool) (b : Option 
       · simp only [St.nextAnc_anc, St.append_anc] at hk1; omega
       · simp only [St.nextAnc_anc, St.append_anc] at hk2; omega
 
-end Qv
+end Qv.PcboP
